@@ -44,10 +44,7 @@ type eng struct{}
 
 func (eng) Name() string { return "job" }
 func (eng) CoqRequire(mode string) string {
-	if mode == "slot" {
-		return "From RV Require Import Model.JobSM Corr.Check_job."
-	}
-	return "From RV Require Import Model.JobSM Corr.Check_job."
+	return "From Coq Require Import List NArith Bool.\nFrom RV Require Import Model.JobSM Corr.Check_job.\nImport ListNotations."
 }
 func (eng) CoqCaseType(mode string) string { return "Check_job.case" }
 func (eng) CoqRun(mode string) string      { return "Check_job.run" }
